@@ -16,7 +16,7 @@ import (
 
 func TestMain(m *testing.M) {
 	document.SetGlobalLevel(document.LogLevelSilent)
-	kit.TestMain(m, 4000, 40000)
+	kit.TestMain(m, 12000, 300000)
 }
 
 // ---------------------------------------------------------------------------------------------
